@@ -8,7 +8,7 @@ Local Open Scope Z_scope.
 Definition n70 : ident := 70%nat.
 Definition bump : list kstmt := [KAsg n70 (KBin Add (KVar n70) (KNum 1))].
 Definition counter (f : ident) (k : kind) (init : Z) (tail : list kstmt) : kfunc :=
-  {| kfname := f; kfret := k; kfmeth := false; kfparams := [];
+  {| kfname := f; kfret := k; kfvia := 0%nat; kfparams := [];
      kfbody := KDecl true KLong n70 (KNum init) :: bump ++ tail |}.
 
 (* f1 runs to its end (void), f2 returns a long, f3 returns a string, f4 divides by zero;
